@@ -364,6 +364,46 @@ class Model:
             frontier = nxt
         return out
 
+    def inlined_body(self, f, depth=1):
+        """f's body with the calls of its same-file helpers (scope_fns) replaced by the helper's body: what the function looked like before
+        a block was extracted into a private helper.  A copy - the trees themselves stay as parsed.  Spans stay those of the helper's
+        code (same file), `return` / `?` inside an inlined body keep their meaning of leaving the helper: rules that ask which loops,
+        calls and tests a pipeline function performs read this; rules about the function's own exits read f.body."""
+        import copy
+        key = (f.file, f.qual, depth)
+        cache = self.__dict__.setdefault("_inl", {})
+        if key in cache:
+            return cache[key]
+        helpers = {g.name: g for g in self.scope_fns(f, depth) if g is not f and g.body is not None}
+        body = copy.deepcopy(f.body)
+
+        def rec(node, stack):
+            if isinstance(node, list):
+                for x in node:
+                    rec(x, stack)
+                return
+            if not isinstance(node, dict):
+                return
+            for v in list(node.values()):
+                if isinstance(v, (dict, list)):
+                    rec(v, stack)
+            if node.get("k") in ("Call", "MethodCall"):
+                nm = callee_name(node)
+                nm = nm.split("::")[-1] if nm else nm
+                if nm in helpers and nm not in stack and len(stack) < depth:
+                    hb = copy.deepcopy(helpers[nm].body)
+                    rec(hb, stack + [nm])
+                    sp = node.get("sp")
+                    orig = dict(node)
+                    orig["inlined_call"] = True
+                    node.clear()
+                    # the call itself stays visible (rules that look for it by name still find it), followed by the helper's statements
+                    node.update({"k": "Block", "sp": sp, "inlined": nm,
+                                 "stmts": [{"k": "ExprStmt", "expr": orig, "semi": True, "sp": sp}] + hb["stmts"]})
+        rec(body, [])
+        cache[key] = body
+        return body
+
     def arg_for_param(self, caller, helper, pname):
         """the expression `caller` passes for parameter `pname` of `helper` (first call found), or None"""
         ps = [p["pat"].get("name") for p in helper.params() if not p["self"]]
